@@ -95,6 +95,29 @@ def run_property(prop, tier, seed, prop_file, corr_mod, check_fn, profiles, n_qu
                         "codes": codes},
         })
         res.assumptions = assumptions
+        if rejected and not unknown and harness_ok:
+            # the correspondence is broken although no monitor failed: search further scenarios of the same
+            # profiles for a concrete failing trace before giving up
+            extra_found = None
+            for extra in range(1, 4):
+                rnd2 = random.Random(seed * 7919 + extra)
+                sc2 = [m5.Gen(rnd2, rnd2.choice(profiles)).gen(rnd2.randint(12, 45)) for _ in range(n)]
+                ok2, _, outs2 = m5.run_scenarios(work, sc2)
+                if not ok2:
+                    break
+                r2 = eval_traces(work, outs2, corr_mod, check_fn, "%s_x%d" % (prop, extra))
+                bad = [(i, f) for i, r in enumerate(r2) for f in r[2] if not (f[3] and finding_id in known_listed)]
+                res.coverage.setdefault("search_after_rejection", []).append({"scenarios": len(sc2), "monitor_failures": len(bad)})
+                if bad:
+                    i, f = bad[0]
+                    extra_found = (sc2[i], outs2[i], f)
+                    break
+            if extra_found:
+                sc, o, f = extra_found
+                res.violation("monitor-search-%d" % f[0], {
+                    "property": prop, "what": "monitor (found by the search after a correspondence break): " + codes.get(str(f[1]), "code %d" % f[1]),
+                    "failure": f, "scenario": sc, "trace_context": context(o, f[0]), "seed": seed, "tier": tier})
+                return res.finish()
         if known:
             res.known_finding("%s: %s (%d hit(s) in this run, e.g. scenario %d event %d)" % (
                 finding_id, finding_what, len(known), known[0][0], known[0][1][0]))
